@@ -43,6 +43,12 @@ theorem run_sound (sk : Sk) (h : Held) (t : Trace) (o : Outcome) (hx : Exec sk h
       simp only [run] at hok
       exact ⟨(by intro p hp; simp at hp; subst hp; exact hok), (by intro h' e; simp at e; subst e; simp [run]),
              (by intro h' e; cases e), Or.inl (by simp [heldOf]), fun _ => by simp [heldOf]⟩
+    | xml =>
+      exact ⟨(by intro p hp; simp at hp; subst hp; rfl), (by intro h' e; simp at e; subst e; simp [run]),
+             (by intro h' e; cases e), Or.inl (by simp [heldOf]), fun _ => by simp [heldOf]⟩
+    | acquire =>
+      exact ⟨(by intro p hp; simp at hp; subst hp; rfl), (by intro h' e; simp at e; subst e; simp [run]),
+             (by intro h' e; cases e), Or.inl (by simp [heldOf]), fun _ => by simp [heldOf]⟩
   | evRaises e h =>
     intro hok
     refine ⟨?_, (by intro h' e; cases e), (by intro h' e; cases e), Or.inl rfl, fun _ => rfl⟩
@@ -53,6 +59,8 @@ theorem run_sound (sk : Sk) (h : Held) (t : Trace) (o : Outcome) (hx : Exec sk h
     | read => simpa [run] using hok
     | write => simpa [run] using hok
     | hook => simpa [run] using hok
+    | xml => rfl
+    | acquire => rfl
   | evRaises0 e h => intro _; exact ⟨(by simp), (by intro h' e; cases e), (by intro h' e; cases e), Or.inl rfl, fun _ => rfl⟩
   | ret h => intro _; exact ⟨(by simp), (by intro h' e; cases e), (by intro h' e; cases e; simp [run]), Or.inl rfl, fun _ => rfl⟩
   | raise h => intro _; exact ⟨(by simp), (by intro h' e; cases e), (by intro h' e; cases e), Or.inl rfl, fun _ => rfl⟩
@@ -158,6 +166,8 @@ theorem run_sound (sk : Sk) (h : Held) (t : Trace) (o : Outcome) (hx : Exec sk h
       | some x => simp at hok
     refine ⟨?_, (by intro h' e; cases e; simp [run]), (by intro h' e; cases e), Or.inr rfl, fun _ => by simp [heldOf, hnone]⟩
     intro p hp
+    rcases List.mem_cons.mp hp with hp | hp
+    · subst hp; rfl
     rcases List.mem_append.mp hp with hp | hp
     · exact g.events p hp
     · by_cases hm : m = .w
@@ -178,6 +188,8 @@ theorem run_sound (sk : Sk) (h : Held) (t : Trace) (o : Outcome) (hx : Exec sk h
       | some x => simp at hok
     refine ⟨?_, (by intro h' e; cases e), ?_, Or.inr rfl, fun _ => by simp [heldOf, hnone]⟩
     · intro p hp
+      rcases List.mem_cons.mp hp with hp | hp
+      · subst hp; rfl
       rcases List.mem_append.mp hp with hp | hp
       · exact g.events p hp
       · by_cases hm : m = .w
@@ -200,7 +212,11 @@ theorem run_sound (sk : Sk) (h : Held) (t : Trace) (o : Outcome) (hx : Exec sk h
       cases h with
       | none => rfl
       | some x => simp at hok
-    exact ⟨g.events, (by intro h' e; cases e), (by intro h' e; cases e), Or.inr rfl, fun _ => by simp [heldOf, hnone]⟩
+    refine ⟨?_, (by intro h' e; cases e), (by intro h' e; cases e), Or.inr rfl, fun _ => by simp [heldOf, hnone]⟩
+    intro p hp
+    rcases List.mem_cons.mp hp with hp | hp
+    · subst hp; rfl
+    · exact g.events p hp
   | tryOk b hd h t o _ hnr ih =>
     intro hok
     simp only [run, Bool.and_eq_true] at hok
